@@ -5,7 +5,7 @@ package main
 // the Go interface.
 //
 // Universe (sx):
-//   U      = ( (pkg*) )
+//   U      = ( (pkg*) [canon] )     canon: bit0 answers spell names in another case, bit1 GetVersion drops +build
 //   pkg    = ( name fail (ver*) )          fail: bit0 GetPackage, bit1 GetVersion, bit2 GetRequirements answer Unavailable
 //   ver    = ( version isdefault deps (bundle*) )
 //   deps   = ( (dep*) (dep*) (dep*) (dep*) (name*) )   dependencies, dev, optional, peer, bundleDependencies
@@ -16,7 +16,8 @@ package main
 //   api        (U table ops)      -> one result per op, one APIClient for the whole history (table is for the model only)
 //   api_table  (U (name req)*)    -> resolve.MatchRequirement over the versions the service lists, as version strings
 //   api_graph  (U name version)   -> (graphAPI graphLocal traceAPI traceLocal)
-//   api_conc   (U roots n rounds) -> per goroutine: result equals sequential result? (+ race flag)
+//   api_conc   (U roots n rounds [direct]) -> per goroutine: result equals sequential result? (+ race flag);
+//              direct=1: odd goroutines call the client directly instead of resolving
 
 import (
 	"context"
@@ -66,6 +67,10 @@ type uPkg struct {
 type universe struct {
 	pkgs  []uPkg
 	index map[string]int
+	// canon: the service answers with canonicalised keys, as the real one may:
+	// bit0 names come back in another letter case, bit1 GetVersion reports a
+	// version without its build metadata ("1.0.0" for "1.0.0+build").
+	canon int
 }
 
 func decDeps(v sx.V) uDeps {
@@ -87,6 +92,9 @@ func decDeps(v sx.V) uDeps {
 
 func decUniverse(v sx.V) *universe {
 	u := &universe{index: map[string]int{}}
+	if len(v.List()) > 1 {
+		u.canon = int(v.Nth(1).Int())
+	}
 	for _, p := range v.Nth(0).List() {
 		pk := uPkg{name: p.Nth(0).Str(), fail: int(p.Nth(1).Int())}
 		for _, ve := range p.Nth(2).List() {
@@ -134,6 +142,26 @@ type fakeInsights struct {
 	yield bool
 }
 
+// canonName / canonVersion: how the service spells a key in its answers.
+func (f *fakeInsights) canonName(n string) string {
+	if f.u.canon&1 != 0 {
+		if up := strings.ToUpper(n); up != n {
+			return up
+		}
+		return strings.ToLower(n)
+	}
+	return n
+}
+
+func (f *fakeInsights) canonVersion(v string) string {
+	if f.u.canon&2 != 0 {
+		if i := strings.IndexByte(v, '+'); i >= 0 {
+			return v[:i]
+		}
+	}
+	return v
+}
+
 func (f *fakeInsights) pause() {
 	if f.yield {
 		runtime.Gosched()
@@ -152,10 +180,11 @@ func (f *fakeInsights) GetPackage(ctx context.Context, in *pb.GetPackageRequest,
 	if p.fail&1 != 0 {
 		return nil, status.Error(codes.Unavailable, "unavailable")
 	}
-	out := &pb.Package{PackageKey: &pb.PackageKey{System: pb.System_NPM, Name: p.name}}
+	// the listed version strings are data; only the spelling of the name is the service's
+	out := &pb.Package{PackageKey: &pb.PackageKey{System: pb.System_NPM, Name: f.canonName(p.name)}}
 	for _, v := range p.vers {
 		out.Versions = append(out.Versions, &pb.Package_Version{
-			VersionKey: &pb.VersionKey{System: pb.System_NPM, Name: p.name, Version: v.version},
+			VersionKey: &pb.VersionKey{System: pb.System_NPM, Name: f.canonName(p.name), Version: v.version},
 			IsDefault:  v.isDefault,
 		})
 	}
@@ -176,7 +205,7 @@ func (f *fakeInsights) GetVersion(ctx context.Context, in *pb.GetVersionRequest,
 		return nil, status.Error(codes.NotFound, "version not found")
 	}
 	return &pb.Version{
-		VersionKey: &pb.VersionKey{System: pb.System_NPM, Name: p.name, Version: v.version},
+		VersionKey: &pb.VersionKey{System: pb.System_NPM, Name: f.canonName(p.name), Version: f.canonVersion(v.version)},
 		IsDefault:  v.isDefault,
 	}, nil
 }
@@ -663,16 +692,45 @@ func apiConc(arg sx.V) sx.V {
 	roots := arg.Nth(1).List()
 	n := int(arg.Nth(2).Int())
 	rounds := int(arg.Nth(3).Int())
+	direct := len(arg.List()) > 4 && arg.Nth(4).Int() != 0
 	if len(roots) == 0 {
 		panic(harnessBug{"api_conc without roots"})
 	}
+	ctx := context.Background()
 	seq := make([]string, len(roots))
+	// per root, for the goroutines that call the client directly: the resolver's recorded calls
+	// for that root restricted to Requirements of plain versions and to calls on mangled names
+	// (a sequence obeying the trace discipline), with the answers a client used by nobody else gives.
+	calls := make([][]sx.V, len(roots))
+	want := make([][]string, len(roots))
 	for i, r := range roots {
-		g, _ := resolveSx(resolve.NewAPIClient(&fakeInsights{u: u}), r.Nth(0).Str(), r.Nth(1).Str(), true)
+		g, rec := resolveSx(resolve.NewAPIClient(&fakeInsights{u: u}), r.Nth(0).Str(), r.Nth(1).Str(), !direct)
 		seq[i] = g.String()
+		if direct {
+			for _, e := range rec.log {
+				op := e.Nth(0)
+				mangled := strings.Contains(op.Nth(1).Str(), ">")
+				if mangled || op.Nth(0).Int() == 2 {
+					// Requirements of every plain version the resolver visited (the root first), and
+					// every call on a mangled name
+					calls[i] = append(calls[i], op)
+				}
+			}
+			alone := resolve.NewAPIClient(&fakeInsights{u: u})
+			for _, op := range calls[i] {
+				want[i] = append(want[i], safeOp(ctx, alone, op).String())
+			}
+		}
 	}
 	shared := resolve.NewAPIClient(&fakeInsights{u: u, yield: true})
 	got := make([][]string, n)
+	var bad []sx.V
+	var badMu sync.Mutex
+	report := func(v sx.V) {
+		badMu.Lock()
+		bad = append(bad, v)
+		badMu.Unlock()
+	}
 	start := make(chan struct{})
 	var wg sync.WaitGroup
 	for i := 0; i < n; i++ {
@@ -681,15 +739,39 @@ func apiConc(arg sx.V) sx.V {
 			defer wg.Done()
 			<-start
 			for k := 0; k < rounds; k++ {
-				r := roots[(i+k)%len(roots)]
-				g, _ := resolveSx(shared, r.Nth(0).Str(), r.Nth(1).Str(), true)
-				got[i] = append(got[i], g.String())
+				ri := (i + k) % len(roots)
+				r := roots[ri]
+				switch {
+				case direct && i%8 == 7:
+					// a client that never asks for the root itself: each mangled name is either still
+					// unknown or already what Requirements of the root stores, nothing else
+					for j, op := range calls[ri] {
+						if !strings.Contains(op.Nth(1).Str(), ">") {
+							continue
+						}
+						a := safeOp(ctx, shared, op).String()
+						if a != want[ri][j] && a != `("notfound")` {
+							report(sx.L(sx.Int(i), sx.Int(k), sx.Int(ri), sx.B("free-rider "+op.String()+" -> "+a), sx.B(want[ri][j]+` or ("notfound")`)))
+						}
+					}
+					got[i] = append(got[i], seq[ri])
+				case direct && i%2 == 1:
+					for j, op := range calls[ri] {
+						a := safeOp(ctx, shared, op).String()
+						if a != want[ri][j] {
+							report(sx.L(sx.Int(i), sx.Int(k), sx.Int(ri), sx.B("direct "+op.String()+" -> "+a), sx.B(want[ri][j])))
+						}
+					}
+					got[i] = append(got[i], seq[ri])
+				default:
+					g, _ := resolveSx(shared, r.Nth(0).Str(), r.Nth(1).Str(), true)
+					got[i] = append(got[i], g.String())
+				}
 			}
 		}(i)
 	}
 	close(start)
 	wg.Wait()
-	var bad []sx.V
 	for i := 0; i < n; i++ {
 		for k := 0; k < rounds; k++ {
 			ri := (i + k) % len(roots)
